@@ -1456,6 +1456,28 @@ pub proof fn comp_path_split(u: Seq<int>, v: Seq<int>)
     %(B)s_at_prefix(0, u, w, u.len() as int);
     %(B)s_at_run(0, u);
 }
+/// FACT: a valid path cut right after a '/' gives two valid paths
+pub proof fn comp_path_split_after_slash(u: Seq<int>, v: Seq<int>)
+    requires %(B)s_run(0, u + v), u.len() > 0, u[u.len() - 1] == 47,
+    ensures %(B)s_run(0, u), %(B)s_run(0, v),
+{
+    let w = u + v;
+    let m = u.len() as int;
+    %(B)s_split(0, w, m - 1);
+    let q = %(B)s_at(0, w, m - 1);
+    if q < 0 { %(B)s_dead(w.skip(m - 1)); }
+    let t = w.skip(m - 1);
+    assert(t[0] == 47);
+    if %(B)s_step(q, 47) < 0 { %(B)s_dead(t.drop_first()); }
+    only_zero_final(q);
+    assert(%(B)s_step(0, 47) == 0);
+    %(B)s_at_next(0, w, m - 1);
+    %(B)s_split(0, w, m);
+    assert(w.skip(m) =~= v);
+    assert forall|i: int| 0 <= i < m implies u[i] == w[i] by { }
+    %(B)s_at_prefix(0, u, w, m);
+    %(B)s_at_run(0, u);
+}
 /// FACT: what follows a '/' inside a valid path is a valid path
 pub proof fn comp_path_strip_slash(r: Seq<int>)
     requires %(B)s_run(0, seq![47int] + r),
